@@ -348,7 +348,18 @@ pub fn run_property(p: &dyn Property, o: &RunOpts) -> RunResult {
     }
     // 2. enumerated part
     let mut exh = Sink::default();
-    let exhaustive = p.exhaustive(&mut exh, o.tier);
+    let exhaustive = match catch(|| p.exhaustive(&mut exh, o.tier)) {
+        Ok(e) => e,
+        Err(msg) => {
+            // a panic escaping the enumerated part is a panic of the code under test
+            violations.push(Violation {
+                case: Value::Null,
+                msg: format!("the enumerated part panicked: {}", msg),
+                origin: "enumeration".into(),
+            });
+            false
+        }
+    };
     let exh_evals = exh.evaluations;
     for (case, msg) in exh.failures.drain(..) {
         violations.push(Violation {
